@@ -71,8 +71,40 @@ func hostileBody(rng *rand.Rand, path string, w *worldA) []byte {
 		opts := []string{"{\"Event\":\"\"}", "{\"Event\":null}", "{}", "{\"Event\":\"" + known + "\"}", "{\"Event\":\"" + b64(100000, 1) + "\"}", "{\"Event\":[1,2]}", "{\"Event\":\"" + b64(3, byte(rng.IntN(250))) + "\",\"x\":{}}"}
 		return []byte(opts[rng.IntN(len(opts))])
 	case strings.HasPrefix(path, "/proofs/membership"):
+		if w.e.rlog.Len() > 0 && rng.IntN(2) == 0 {
+			// well-formed requests at the version boundaries of a known event:
+			// before its insertion, at it, at/after the current version
+			var ks []string
+			for k := range w.events {
+				ks = append(ks, k)
+			}
+			sortStrings(ks)
+			if len(ks) > 0 {
+				d := ks[rng.IntN(len(ks))]
+				v, _ := w.e.rlog.FirstVersion([]byte(d))
+				cur := w.e.rlog.Len() - 1
+				vs := []uint64{0, v, cur, cur + 1, cur + 1000}
+				if v > 0 {
+					vs = append(vs, v-1, v-1, uint64(rng.IntN(int(v))))
+				}
+				key := base64.StdEncoding.EncodeToString(w.events[d])
+				if rng.IntN(4) == 0 {
+					return []byte(fmt.Sprintf("{\"Key\":\"%s\"}", key))
+				}
+				return []byte(fmt.Sprintf("{\"Key\":\"%s\",\"Version\":%d}", key, vs[rng.IntN(len(vs))]))
+			}
+		}
 		return []byte(fmt.Sprintf("{\"Key\":%s,\"Version\":%s}", []string{"\"" + known + "\"", "\"\"", "null", "\"" + b64(200, 7) + "\"", "5"}[rng.IntN(5)], num()))
 	case strings.HasPrefix(path, "/proofs/digest-membership"):
+		if n := w.e.rlog.Len(); n > 0 && rng.IntN(3) == 0 {
+			v := uint64(rng.IntN(int(n)))
+			d := base64.StdEncoding.EncodeToString(w.e.rlog.Digests[v])
+			vs := []uint64{0, v, n - 1, n, n + 7}
+			if v > 0 {
+				vs = append(vs, v-1, v-1)
+			}
+			return []byte(fmt.Sprintf("{\"KeyDigest\":\"%s\",\"Version\":%d}", d, vs[rng.IntN(len(vs))]))
+		}
 		lens := []int{0, 1, 16, 31, 32, 33, 48, 63, 64, 65, 200}
 		dg := "\"" + b64(lens[rng.IntN(len(lens))], byte(rng.IntN(250))) + "\""
 		if rng.IntN(3) == 0 && knownDigest != "" {
@@ -86,6 +118,12 @@ func hostileBody(rng *rand.Rand, path string, w *worldA) []byte {
 		}
 		return []byte(fmt.Sprintf("{\"KeyDigest\":%s,\"Version\":%s}", dg, num()))
 	case strings.HasPrefix(path, "/proofs/incremental"):
+		if n := w.e.rlog.Len(); n > 0 && rng.IntN(3) == 0 {
+			c := n - 1
+			pairs := [][2]uint64{{0, c}, {c, c}, {c, 0}, {0, c + 1}, {c + 1, c + 1}, {c, c + 1}, {uint64(rng.IntN(int(n))), uint64(rng.IntN(int(n)))}}
+			p := pairs[rng.IntN(len(pairs))]
+			return []byte(fmt.Sprintf("{\"Start\":%d,\"End\":%d}", p[0], p[1]))
+		}
 		return []byte(fmt.Sprintf("{\"Start\":%s,\"End\":%s}", num(), num()))
 	}
 	return []byte(generic[rng.IntN(len(generic))])
